@@ -414,14 +414,14 @@ def histories(tier):
     out += [(a, b) for a in ID_FAMILY for b in ID_FAMILY]
     if tier != 'quick':
         out += [(a, b, c) for a in ID_FAMILY for b in ID_FAMILY for c in ID_FAMILY if len({a, b, c}) == 3]
+    # second / third letters: everything but the less consequential header letters
+    light = ('a12.stop', 'a12.order_true', 'a12.order_false', 'a12.maxsize_big', 'a12.async_false',
+             'a12.timestamp', 'a12.ids_all', 'a20.continue', 'a12.continue')
     if tier == 'quick':
-        # second letters: everything but the less consequential header letters
-        light = ('a12.stop', 'a12.order_true', 'a12.order_false', 'a12.maxsize_big', 'a12.async_false',
-                 'a12.timestamp', 'a12.ids_all', 'a20.continue', 'a12.continue')
         out += [(a, b) for a in CORE for b in full if b not in light]
     else:
-        out += [(a, b) for a in full for b in full]
-        out += [(a, b, c) for a in CORE for b in CORE for c in full]
+        out += [(a, b) for a in full for b in full if b not in light]
+        out += [(a, b, c) for a in CORE for b in CORE for c in full if c not in light]
     return out
 
 
